@@ -60,8 +60,20 @@ Record eframe := {
   ef_grid : list (list ecell); ef_cur : ecursor;
   ef_host : list (list ecell); ef_hostcur : ecursor
 }.
+(* uniseg's answers, shipped with the case: a printed run and the clusters (grapheme, width)
+   the real parser cut it into *)
+Definition segtable := list (list Z * list (list Z * Z)).
+Fixpoint lookup_seg (tbl : segtable) (run : list Z) : list (list Z * Z) :=
+  match tbl with
+  | [] => []
+  | (r, cl) :: t => if zlist_eqb run r then cl else lookup_seg t run
+  end.
+
+(* [e_pre]: bytes the emulator received before Vaxis started (what is on the primary screen
+   underneath the application) *)
 Record ecase := {
-  e_rows : Z; e_cols : Z; e_widths : wtable; e_caps : list bool; e_frames : list eframe
+  e_rows : Z; e_cols : Z; e_widths : wtable; e_segs : segtable; e_caps : list bool; e_pre : list Z;
+  e_frames : list eframe
 }.
 
 Fixpoint eframes_agree (s : vstate) (fs : list eframe) : bool :=
@@ -77,17 +89,23 @@ Definition c12_mismatches (cases : list ecase) : list Z :=
   bad_indices (fun c => negb (list_eqb Bool.eqb (e_caps c) term_caps_reported &&
                               eframes_agree (vinit term_caps (e_rows c) (e_cols c)) (e_frames c))) cases.
 
+(* a frame ended by a size change (the host resizes the emulator, Vaxis sees the new size and
+   writes nothing): nothing is promised for what is on the screen then, the next frame repaints *)
 Fixpoint eframes_hold (tw : list Z -> Z) (rows cols : Z) (s : vstate) (fs : list eframe) : bool :=
   match fs with
   | [] => true
   | f :: rest =>
       let s1 := fold_left apply_op (ef_ops f) s in
-      if grid_ok tw tw term_caps (v_next s1) then
-        let '(s', _) := do_frame s (ef_ops f) (ef_end f) in
-        grid_shows term_caps (v_next s1) (ef_grid f) && cursor_shows rows cols (v_cnext s1) (ef_cur f) &&
-        grid_shows term_caps (v_next s1) (ef_host f) && cursor_shows rows cols (v_cnext s1) (ef_hostcur f) &&
-        eframes_hold tw rows cols s' rest
-      else true
+      match ef_end f with
+      | FResize rows2 cols2 => eframes_hold tw rows2 cols2 (do_resize s1 rows2 cols2) rest
+      | _ =>
+        if grid_ok tw tw term_caps (v_next s1) then
+          let '(s', _) := do_frame s (ef_ops f) (ef_end f) in
+          grid_shows term_caps (v_next s1) (ef_grid f) && cursor_shows rows cols (v_cnext s1) (ef_cur f) &&
+          grid_shows term_caps (v_next s1) (ef_host f) && cursor_shows rows cols (v_cnext s1) (ef_hostcur f) &&
+          eframes_hold tw rows cols s' rest
+        else true
+      end
   end.
 
 Definition c12_holds (c : ecase) : bool :=
